@@ -385,6 +385,14 @@ func (vc *VC) loopHeader(li *loopInfo, R string, h *Heap) {
 			}
 			li.variant0 = vc.define("variant", "Int", v)
 		}
+		li.nondec0 = nil
+		for _, c := range li.spec.Nondec {
+			v, err := ev.intExpr(c.E)
+			if err != nil {
+				vc.fail("%s nondecreasing: %v", name, err)
+			}
+			li.nondec0 = append(li.nondec0, vc.define("nondec", "Int", v))
+		}
 	}
 	// free facts for range-over-slice / range-over-int loops
 	vc.rangeLoopFacts(li, R)
@@ -455,6 +463,18 @@ func (vc *VC) backEdge(li *loopInfo, from *ssa.BasicBlock, cond string, h Heap) 
 		}
 		vc.addObl(&Obligation{Name: fmt.Sprintf("%s/%s/decreases@b%d", vc.key, name, from.Index), Kind: "decreases",
 			Goal: implies(cond, "(and (< "+v+" "+li.variant0+") (<= 0 "+li.variant0+"))"), Src: li.spec.Decreases.Src,
+			Pos: vc.pos(li.header.Instrs[0].Pos())})
+	}
+	for i, c := range li.spec.Nondec {
+		if i >= len(li.nondec0) {
+			break
+		}
+		v, err := ev.intExpr(c.E)
+		if err != nil {
+			vc.fail("%s nondecreasing: %v", name, err)
+		}
+		vc.addObl(&Obligation{Name: fmt.Sprintf("%s/%s/nondecreasing#%d@b%d", vc.key, name, i+1, from.Index), Kind: "nondecreasing",
+			Goal: implies(cond, "(>= "+v+" "+li.nondec0[i]+")"), Src: "never decreases across an iteration: " + c.Src,
 			Pos: vc.pos(li.header.Instrs[0].Pos())})
 	}
 }
